@@ -3,6 +3,7 @@ import Mathlib.Tactic.FieldSimp
 import Mathlib.Tactic.LinearCombination
 import Mathlib.Tactic.Linarith
 import Mathlib.Tactic.FinCases
+import Mathlib.Tactic.IntervalCases
 import Mathlib.Algebra.Order.Field.Basic
 import NiflyVerif.Xform.Defs
 /-!
@@ -185,5 +186,41 @@ theorem bbox_ball_encloses {F : Type} [Field F] [LinearOrder F] [IsStrictOrdered
   have := key _ _ _ hy.1 hy.2
   have := key _ _ _ hz.1 hz.2
   linarith
+
+/-! ### Matrix4 -/
+
+section Mat4Inverse
+variable {K : Type} [Field K]
+
+set_option maxHeartbeats 3200000 in
+theorem Mat4.mul_adjoint (m : Mat4 K) (k : Fin 16) : Mat4.mul m (Mat4.adjoint m) k = Mat4.det m * (Mat4.one : Mat4 K) k := by
+  obtain ⟨n, hn⟩ := k
+  interval_cases n <;>
+    simp [Mat4.mul, Mat4.adjoint, Mat4.minorDet, Mat4.others, Mat4.det, Mat4.one] <;> ring
+
+
+
+set_option maxHeartbeats 3200000 in
+theorem Mat4.adjoint_mul (m : Mat4 K) (k : Fin 16) : Mat4.mul (Mat4.adjoint m) m k = Mat4.det m * (Mat4.one : Mat4 K) k := by
+  obtain ⟨n, hn⟩ := k
+  interval_cases n <;>
+    simp [Mat4.mul, Mat4.adjoint, Mat4.minorDet, Mat4.others, Mat4.det, Mat4.one] <;> ring
+
+theorem Mat4.mul_smul (a b : Mat4 K) (f : K) (k : Fin 16) : Mat4.mul a (Mat4.smul b f) k = Mat4.mul a b k * f := by
+  simp only [Mat4.mul, Mat4.smul]; ring
+
+theorem Mat4.smul_mul (a b : Mat4 K) (f : K) (k : Fin 16) : Mat4.mul (Mat4.smul a f) b k = Mat4.mul a b k * f := by
+  simp only [Mat4.mul, Mat4.smul]; ring
+
+/-- **`Matrix4::Inverse` is a two-sided inverse** whenever the determinant is not zero (cofactor / adjugate formula as
+written in Object3d.hpp). -/
+theorem Mat4.mul_inverse (m : Mat4 K) (h : Mat4.det m ≠ 0) :
+    Mat4.mul m (Mat4.inverse m) = Mat4.one ∧ Mat4.mul (Mat4.inverse m) m = Mat4.one := by
+  constructor <;> funext k
+  · rw [Mat4.inverse, Mat4.mul_smul, Mat4.mul_adjoint]; field_simp
+  · rw [Mat4.inverse, Mat4.smul_mul, Mat4.adjoint_mul]; field_simp
+
+
+end Mat4Inverse
 
 end Nifly.Xform
